@@ -247,6 +247,35 @@ Proof.
   rewrite Hg, Hs in Hs1. cbn [C16_Solve.pcgls_init cg_gamma] in Hs1. exact Hs1.
 Qed.
 
+(* guarded form: with shift = 0 (the complement of the refuted class) the residual PCGLS tests IS the
+   preconditioned residual of the documented system (A^T A + shift I) x = A^T b *)
+Lemma vscale_zero (x : vec) : Vscale r0 x = vzero r0 (length x).
+Proof. induction x as [|a x IH]; [reflexivity|]. cbn. unfold vscale, vzero in IH. rewrite IH. f_equal. ring. Qed.
+
+Lemma vsub_vzero (v : vec) k : length v = k -> Vsub v (vzero r0 k) = v.
+Proof.
+  revert k; induction v as [|a v IH]; intros [|k] H; cbn in *; try discriminate; try reflexivity.
+  rewrite IH by lia. f_equal. ring.
+Qed.
+
+Lemma ne_res_shift0 x : shift = r0 -> length x = n -> ne_res x = adj (Vsub b (fwd x)).
+Proof.
+  intros Hs Hx. unfold ne_res. rewrite Hs, vscale_zero, Hx. apply vsub_vzero.
+  apply adj_len. apply vsub_len; [exact b_len | apply fwd_len; exact Hx].
+Qed.
+
+Theorem pcgls_solve_shift0 x0 maxit tol x k :
+  shift = r0 -> length x0 = n -> pcgls_solve shift x0 maxit tol = (x, k) ->
+  length x = n /\
+  ((k < maxit)%nat ->
+     rleb (Nsq (pinvT (ne_res x))) (rmul (Nsq (pinvT (ne_res x0))) (rmul tol tol)) = true \/
+     rleb r1 (rmul (Nsq x) (rmul tol tol)) = true).
+Proof.
+  intros Hs Hx0 H. destruct (pcgls_solve_spec shift x0 maxit tol x k Hx0 H) as (_ & _ & Hx & _ & _ & Hstop).
+  split; [exact Hx|]. intros Hlt. specialize (Hstop Hlt).
+  rewrite (ne_res_shift0 x Hs Hx), (ne_res_shift0 x0 Hs Hx0). exact Hstop.
+Qed.
+
 (* the shift argument has no influence at all on what PCGLS returns *)
 Lemma pcgls_shift_irrelevant s1 s2 x0 maxit tol : pcgls_solve s1 x0 maxit tol = pcgls_solve s2 x0 maxit tol.
 Proof. reflexivity. Qed.
@@ -373,10 +402,10 @@ Lemma fista_loop_spec rem : forall k x xo k',
   exists y, xo = pg y /\ (k < k' <= k + S rem)%nat /\ ((k' < k + S rem)%nat -> close (pg y) y = true).
 Proof.
   induction rem as [|rem IH]; intros k x xo k' H; cbn [fista_loop] in H.
-  - inv H. exists x. repeat split; lia.
+  - inv H. exists x. split; [reflexivity|]. split; lia.
   - destruct (close (pg x) x) eqn:E.
-    + inv H. exists x. repeat split; try lia. intros _. exact E.
-    + apply IH in H as (y & -> & Hk & Hc). exists y. repeat split; try lia. intros Hlt. apply Hc. lia.
+    + inv H. exists x. split; [reflexivity|]. split; [lia|]. intros _. exact E.
+    + apply IH in H as (y & -> & Hk & Hc). exists y. split; [reflexivity|]. split; [lia|]. intros Hlt. apply Hc. lia.
 Qed.
 
 (* FISTA(...).solve() = (x, k): x = T(y) with T the proximal-gradient map, 1 <= k <= max(maxit,1), and
@@ -389,11 +418,9 @@ Theorem fista_solve_spec x0 maxit x k :
                rleb (normsq r0 radd rmul (vsub rsub (pg y) y)) (rmul abstol abstol) = true).
 Proof.
   unfold fista_solve. intros H. apply fista_loop_spec in H as (y & -> & Hk & Hc).
-  exists y. repeat split; try lia.
-  - intros Hlt. assert (Hc' : close (pg y) y = true) by (apply Hc; lia).
-    unfold fista_close in Hc'. apply andb_true_iff in Hc'. tauto.
-  - intros Hlt. assert (Hc' : close (pg y) y = true) by (apply Hc; lia).
-    unfold fista_close in Hc'. apply andb_true_iff in Hc'. tauto.
+  exists y. split; [reflexivity|]. split; [lia|].
+  intros Hlt. assert (Hc' : close (pg y) y = true) by (apply Hc; lia).
+  unfold fista_close in Hc'. apply andb_true_iff in Hc'. exact Hc'.
 Qed.
 
 (* ISTA (adaptive = False) iterates the proximal-gradient map itself *)
@@ -440,8 +467,7 @@ Proof. unfold lm_inv, C16_Solve.lm_init; cbn. repeat split; reflexivity. Qed.
 Lemma lm_step_inv st : lm_inv st -> lm_inv (lm_step st).
 Proof.
   intros (Hr & HJ & Hf & Hg & Hng). unfold lm_inv, C16_Solve.lm_step.
-  set (ratio := lm_ratio _ _ _ _ _ _ _ _ _ _ _ _ _).
-  destruct (rltb R rleb ratio r0) eqn:E; cbn [lm_x lm_r lm_J lm_f lm_nu lm_g lm_ng].
+  destruct (rltb R rleb _ r0) eqn:E; cbn [lm_x lm_r lm_J lm_f lm_nu lm_g lm_ng].
   - unfold lm_grad. rewrite <- Hr, <- HJ. repeat split; assumption.
   - repeat split; reflexivity.
 Qed.
